@@ -24,11 +24,14 @@ def replay(check, witnesses, consts, limit=None, rng=None):
         ws = rng.sample(ws, limit)
     out = []
     progs = [strip(w['prog']) for w in ws]
+    WORLD.clear()
+    WORLD.update(world_args(consts))
     results = run_many(progs, consts['NRoots'])
+    WORLD.clear()
     for w, prog, (log, outcome) in zip(ws, progs, results):
         check.programs += 1
         if 'exp' in w:
-            real = [{k: v for k, v in e.items() if k not in ('due', 'never')} for e in log if e['e'] != 'fin']
+            real = [{k: v for k, v in e.items() if k not in ('due', 'never')} for e in log if e['e'] not in ('fin', 'init')]
             if w.get('term', True):
                 differs = real != w['exp'] or (outcome['k'] == 'ok') != (w.get('fault', '') == '')
             else:       # witness of an intermediate state: the model's events are a prefix
@@ -45,9 +48,17 @@ def replay(check, witnesses, consts, limit=None, rng=None):
     return out
 
 
+WORLD = {}     # world parameters of the configuration being replayed (resources)
+
+
+def world_args(consts):
+    return dict(nres=max(consts.get('NRes', 0), 1), resinit=consts.get('ResInit', 2),
+                reskind=consts.get('_reskind', 'res'))
+
+
 def _run_one(args):
-    prog, nroots, start = args
-    return puppet.run_program(prog, nroots=nroots or len(prog), start=start)
+    prog, nroots, start, kw = args
+    return puppet.run_program(prog, nroots=nroots or len(prog), start=start, **kw)
 
 
 # generic form of the runner used by the property modules
@@ -74,7 +85,7 @@ def judge(check, obs, runs):
 def run_many(progs, nroots, procs=16, starts=None):
     """execute programs on the real code in worker processes (each simulation is independent)"""
     starts = starts or [0] * len(progs)
-    jobs = [(p, nroots, s) for p, s in zip(progs, starts)]
+    jobs = [(p, nroots, s, dict(WORLD)) for p, s in zip(progs, starts)]
     if len(progs) < 2000:
         return [_run_one(j) for j in jobs]
     import multiprocessing
